@@ -25,6 +25,7 @@ import (
 	"net/http"
 	"strings"
 	"sync"
+	"sync/atomic"
 	"syscall"
 	"time"
 
@@ -57,6 +58,9 @@ var (
 )
 
 type revisionSyncer struct {
+	// fetchSeq counts the fetches started so far; accessed atomically (first field: 64-bit aligned)
+	fetchSeq uint64
+
 	// inject
 	leaderElection leader.LeaderElection
 	metricCli      metrics.Metrics
@@ -157,31 +161,54 @@ type LeaderRevision struct {
 	Revision uint64
 }
 
-func (r *revisionSyncer) singleFlightGetRevisionFromLeader() (uint64, error) {
-	v, err, _ := r.flight.Do("get_revision", func() (interface{}, error) {
-		// there is no guarantee about the schema of leader, so we just try one by one
-		for _, schema := range r.getRetrySchemas() {
-			r.schema = schema
-			rev, err := r.getRevisionFromLeader()
-			if err != nil {
-				if possibleSchemaMismatch(err) {
-					// switch schema and retry in next loop if possible
-					continue
-				}
+// fetched is the result of one fetch from the leader; seq numbers the fetches in the order they started
+type fetched struct {
+	revision uint64
+	seq      uint64
+}
 
-				// for others error, just return (maybe timeout)
-				return uint64(0), err
+func (r *revisionSyncer) singleFlightGetRevisionFromLeader() (uint64, error) {
+	// concurrent reads share one fetch, but a fetch answers for this read only if it started after the
+	// read arrived here: the answer of a fetch that was already under way may be older than writes the
+	// leader committed before this read began. Such a read waits for that fetch and fetches again.
+	arrived := atomic.LoadUint64(&r.fetchSeq)
+	for {
+		v, err, _ := r.flight.Do("get_revision", func() (interface{}, error) {
+			seq := atomic.AddUint64(&r.fetchSeq, 1)
+			rev, err := r.getRevisionFromLeaderWithRetry()
+			return fetched{revision: rev, seq: seq}, err
+		})
+		if err != nil {
+			return 0, err
+		}
+		if f := v.(fetched); f.seq > arrived {
+			return f.revision, nil
+		}
+	}
+}
+
+func (r *revisionSyncer) getRevisionFromLeaderWithRetry() (uint64, error) {
+	// there is no guarantee about the schema of leader, so we just try one by one
+	for _, schema := range r.getRetrySchemas() {
+		r.schema = schema
+		rev, err := r.getRevisionFromLeader()
+		if err != nil {
+			if possibleSchemaMismatch(err) {
+				// switch schema and retry in next loop if possible
+				continue
 			}
 
-			return rev, nil
+			// for others error, just return (maybe timeout)
+			return 0, err
 		}
 
-		// maybe leader can be access by https only but current node is running without cert
-		err := status.Errorf(codes.Unavailable, "no suitable schema to leader")
-		klog.ErrorS(err, "can not get revision from leader", "leader", r.leaderElection.GetLeaderInfo())
-		return uint64(0), err
-	})
-	return v.(uint64), err
+		return rev, nil
+	}
+
+	// maybe leader can be access by https only but current node is running without cert
+	err := status.Errorf(codes.Unavailable, "no suitable schema to leader")
+	klog.ErrorS(err, "can not get revision from leader", "leader", r.leaderElection.GetLeaderInfo())
+	return 0, err
 }
 
 func possibleSchemaMismatch(err error) bool {
